@@ -161,7 +161,7 @@ func fanoutScenariosFor(prop string) func(tier string) []scenario {
 }
 
 func init() {
-	for _, prop := range []string{"C05", "C18"} {
+	for _, prop := range []string{"C02", "C05", "C18"} {
 		scs := fanoutScenariosFor(prop)
 		fw.Register(fw.Part{Prop: prop, Name: "s.fanout",
 			Units:  func(tier string) []fw.Unit { return scenarioUnits(scs(tier)) },
